@@ -6,7 +6,7 @@ From Coq Require Import String.
 From Coq Require Import List Arith NArith Lia.
 From Mant Require Import Prim.R Prim.Bytes Algo.Word Algo.AES Algo.DES Algo.RC4 Algo.CMAC Algo.Base64 Algo.Utf16 Algo.Utf8 Algo.Hex.
 From Mant Require Import Model.Rc4Go Model.CmacGo Model.Pkcs7 Model.Gppp Gen.ConstsC12 Spec.C12.
-From Mant Require Import Proofs.C12Rc4 Proofs.C12Cmac Proofs.C12Pkcs7 Proofs.C12Gppp Proofs.C12Main.
+From Mant Require Import Proofs.C12Rc4 Proofs.C12Cmac Proofs.C12Pkcs7 Proofs.C12Gppp Proofs.C12AesInv Proofs.C12Main.
 Import ListNotations.
 Open Scope N_scope.
 
@@ -244,12 +244,17 @@ Theorem C12_gpp_inverse_generic : forall (aes_enc aes_dec : list N -> list N -> 
 Proof. exact gppp_roundtrip. Qed.
 Print Assumptions C12_gpp_inverse_generic.
 
-(* … in particular for FIPS 197 AES under the published key, given that the inverse cipher
-   inverts the cipher on 16-byte blocks (the one hypothesis that is not proved here: FIPS 197
-   5.3; checked on generated blocks by the ALGO differential run against crypto/aes). *)
+(* The FIPS 197 inverse cipher (5.3) inverts the cipher (5.1) on every 16-byte block, for every
+   list of round keys made of bytes: the hypothesis above holds for the executable AES. *)
+Theorem C12_aes_inverse : forall rks block,
+  Forall wf_bytes rks -> length block = 16%nat -> wf_bytes block ->
+  aes_inv_cipher (rev rks) (aes_cipher rks block) = block.
+Proof. exact aes_inv_cipher_cipher. Qed.
+Print Assumptions C12_aes_inverse.
+
+(* MAIN: under the published key, GPPPDecryptBase64 (GPPPEncrypt p) = p and GPPPDecryptBytes of the
+   raw ciphertext = p, for every Unicode password p.  No hypothesis is left. *)
 Theorem C12_gpp_inverse :
-  (forall b, length b = 16%nat -> wf_bytes b ->
-     aes_block_dec c12_gppp_aes_key (aes_block_enc c12_gppp_aes_key b) = b) ->
   forall cps, Forall scalar_value cps ->
   exists enc,
     gppp_encrypt (utf8_encode cps) = Ok enc /\
@@ -333,13 +338,7 @@ Example C12_gpp_example :
     = Ok (map (fun c => N.of_nat (Ascii.nat_of_ascii c)) (String.list_ascii_of_string "Local*P4ssword!")).
 Proof. split; vm_compute; reflexivity. Qed.
 
-(* the hypothesis of C12_gpp_inverse on concrete blocks, and the generic hypotheses on a trivial cipher *)
-Example C12_gpp_inverse_hyp_sample :
-  let k := c12_gppp_aes_key in
-  aes_block_dec k (aes_block_enc k (zeros 16)) = zeros 16 /\
-  aes_block_dec k (aes_block_enc k (hex "00112233445566778899aabbccddeeff")) = hex "00112233445566778899aabbccddeeff".
-Proof. split; vm_compute; reflexivity. Qed.
-
+(* the hypotheses of C12_gpp_inverse_generic are met by the executable AES (that is C12_gpp_inverse) and, trivially, by the identity cipher *)
 Example C12_gpp_inverse_generic_hyps :
   let enc := fun (_ b : list N) => b in
   key_size_ok ms_gpp_key = true /\
